@@ -131,6 +131,7 @@ type Backend struct {
 	ProbeStatus int
 	ProbeDelay  time.Duration
 	probes      []int64
+	probeLog    []ProbeEntry
 	holds       map[string]chan struct{}
 	inflight    int
 	extra       http.Handler
@@ -153,6 +154,44 @@ func NewBackend(name string) *Backend {
 // SetExtra installs a handler consulted first (e.g. websocket endpoint); it
 // must return true... implemented as: paths starting with /ws go to extra.
 func (b *Backend) SetExtra(h http.Handler) { b.extra = h }
+
+// Down closes the listener and all connections: connections are refused until Up.
+func (b *Backend) Down() {
+	b.srv.Close()
+}
+
+// Up listens again on the same address.
+func (b *Backend) Up() {
+	var ln net.Listener
+	var err error
+	for i := 0; i < 50; i++ {
+		ln, err = net.Listen("tcp", b.Addr)
+		if err == nil {
+			break
+		}
+		time.Sleep(time.Millisecond)
+	}
+	if err != nil {
+		panic("backend up: " + err.Error())
+	}
+	b.ln = ln
+	b.srv = &http.Server{Handler: http.HandlerFunc(b.serve)}
+	go b.srv.Serve(ln)
+}
+
+// ProbeLog returns (time, status answered) of every health probe received.
+func (b *Backend) ProbeLog() []ProbeEntry {
+	b.mu.Lock()
+	defer b.mu.Unlock()
+	return append([]ProbeEntry(nil), b.probeLog...)
+}
+
+// ProbeEntry is one answered health probe.
+type ProbeEntry struct {
+	At     int64 // arrival, ns since Epoch
+	DoneAt int64 // answer sent
+	Status int
+}
 
 // Close stops the backend (connections are refused afterwards).
 func (b *Backend) Close() {
@@ -185,6 +224,7 @@ func (b *Backend) Reset() {
 	b.mu.Lock()
 	b.arrivals = nil
 	b.probes = nil
+	b.probeLog = nil
 	b.mu.Unlock()
 }
 
@@ -245,8 +285,9 @@ func (b *Backend) serve(w http.ResponseWriter, r *http.Request) {
 	probePath, pst, pdl := b.ProbePath, b.ProbeStatus, b.ProbeDelay
 	b.mu.Unlock()
 	if r.URL.Path == probePath && r.Header.Get(ScriptHeader) == "" && r.Header.Get(XIDHeader) == "" {
+		probeAt := NowNS()
 		b.mu.Lock()
-		b.probes = append(b.probes, NowNS())
+		b.probes = append(b.probes, probeAt)
 		b.mu.Unlock()
 		if pdl > 0 {
 			select {
@@ -257,6 +298,7 @@ func (b *Backend) serve(w http.ResponseWriter, r *http.Request) {
 		}
 		b.mu.Lock()
 		pst = b.ProbeStatus
+		b.probeLog = append(b.probeLog, ProbeEntry{At: probeAt, DoneAt: NowNS(), Status: pst})
 		b.mu.Unlock()
 		if pst == 0 {
 			// hang up
